@@ -147,6 +147,7 @@ type Interp struct {
 	wc        *workerCache
 	pending   []pendingAssert
 	asserted  []*sym.Term
+	constViolated bool
 	pc        []*sym.Term
 }
 
